@@ -45,6 +45,8 @@ type Fn struct {
 	DisOff  []int  `json:"disoff"`  // offsets visited by the real DisassembleInstruction loop (in order)
 	DisErr  string `json:"diserr"`  // its error / panic ("" = none)
 	VName   []string `json:"vname"`   // callsite*: method name (diagnostics and C33)
+	Ord     int      `json:"ord"`     // ordinal of the function inside its source (C33 call graph)
+	VTail   []int    `json:"vtail"`   // bc_callsite with TailCall: Ord of the callee when it belongs to the same source, else 0
 	Callees []string `json:"callees,omitempty"` // names of bc_callsite targets (C33 call graph), index-aligned with constants of kind bc_callsite
 }
 
@@ -125,6 +127,14 @@ func compileOne(si int, src string, abort bool) (sr *SrcResult) {
 		return sr
 	}
 	seen := map[*vm.BytecodeFunction]bool{}
+	ords := map[*vm.BytecodeFunction]int{}
+	ordOf := func(f *vm.BytecodeFunction) int {
+		if o, ok := ords[f]; ok {
+			return o
+		}
+		ords[f] = len(ords) + 1
+		return ords[f]
+	}
 	var walk func(f *vm.BytecodeFunction)
 	walk = func(f *vm.BytecodeFunction) {
 		if f == nil || seen[f] {
@@ -134,6 +144,14 @@ func compileOne(si int, src string, abort bool) (sr *SrcResult) {
 		fn := exportFn(f)
 		fn.Src = si
 		fn.Abort = abort
+		fn.Ord = ordOf(f)
+		fn.VTail = make([]int, len(f.Values))
+		for i, v := range f.Values {
+			if r, ok := v.SafeAsReference().(*vm.BytecodeCallSiteInfo); ok && r.TailCall && r.Method != nil &&
+				r.Method.Location != nil && r.Method.Location.FilePath == "main.elk" {
+				fn.VTail[i] = ordOf(r.Method)
+			}
+		}
 		sr.Fns = append(sr.Fns, fn)
 		for _, v := range f.Values {
 			switch r := v.SafeAsReference().(type) {
